@@ -1177,3 +1177,98 @@ func ruleErrProv(c *Ctx) {
 		})
 	}
 }
+
+// ruleLineComplete: see LINE-COMPLETE.
+func ruleLineComplete(c *Ctx) {
+	c.Rule("LINE-COMPLETE", "The line-search loop of the reader function (the function that calls io.Reader.Read) is left towards 'a line is available' only behind one of: the edge on which the byte found is a line feed, the edge on which a look-ahead byte after the carriage return is present in the buffer (k+1 < len(buf)), or the non-nil edge of the parser's err field (no more input). Otherwise a carriage return that happens to be the last byte read so far is taken for a complete line ending and a CRLF split across two reads becomes two line endings.")
+	p := c.P
+	for _, fn := range p.Funcs {
+		var read ssa.Instruction
+		eachInstr(fn, func(in ssa.Instruction) {
+			if _, ok := isInvokeOf(in, "Read"); ok {
+				read = in
+			}
+		})
+		if read == nil {
+			continue
+		}
+		// the loop containing the Read
+		var loop *natLoop
+		for _, l := range naturalLoops(fn) {
+			l := l
+			if l.body[read.Block()] && (loop == nil || len(l.body) < len(loop.body)) {
+				loop = &l
+			}
+		}
+		if loop == nil {
+			c.Undecided("LINE-COMPLETE", shortFuncName(fn), read.Pos(), "Read is not inside a loop")
+			continue
+		}
+		n := 0
+		for b := range loop.body {
+			for si, s := range b.Succs {
+				if loop.body[s] {
+					continue
+				}
+				// exit edge b→s; ignore exits that end in a return of a constant false (giving up)
+				if r, ok := s.Instrs[len(s.Instrs)-1].(*ssa.Return); ok && len(s.Preds) == 1 && len(r.Results) == 1 {
+					if cv, ok := r.Results[0].(*ssa.Const); ok && cv.Value != nil && cv.Value.String() == "false" {
+						continue
+					}
+				}
+				n++
+				key := fmt.Sprintf("%s:exit#%d", shortFuncName(fn), n)
+				ok, why := false, "loop exit not behind an LF test, a look-ahead-available test or the end-of-input test"
+				for _, g := range fn.Blocks {
+					iff := blockIf(g)
+					if iff == nil {
+						continue
+					}
+					for gi := 0; gi < 2; gi++ {
+						dom := edgeDominates(g, gi, b) || (g == b && gi == si)
+						if !dom {
+							continue
+						}
+						// (c) err != nil
+						if x, ni, isNil := nilTest(iff.Cond); isNil {
+							if _, isErr := isLoadOfField(x, "BlockParser", "err"); isErr && gi == 1-ni {
+								ok, why = true, "behind the end-of-input edge"
+							}
+							continue
+						}
+						bo, isBo := iff.Cond.(*ssa.BinOp)
+						if !isBo {
+							continue
+						}
+						// (a) byte == '\n'
+						if bo.Op == token.EQL && gi == 0 {
+							if k, isC := constInt(bo.Y); isC && k == '\n' {
+								ok, why = true, "behind a line-feed edge"
+							}
+						}
+						// (b) k+1 < len(buf)
+						if bo.Op == token.LSS && gi == 0 {
+							if cl, isLen := isBuiltinCall(bo.Y, "len"); isLen {
+								if _, isBuf := isLoadOfField(cl.Call.Args[0], "BlockParser", "buf"); isBuf {
+									if add, isAdd := bo.X.(*ssa.BinOp); isAdd && add.Op == token.ADD {
+										if one, isOne := constInt(add.Y); isOne && one >= 1 {
+											ok, why = true, "behind the look-ahead-available edge"
+										}
+									}
+								}
+							}
+						}
+					}
+				}
+				pos := b.Instrs[len(b.Instrs)-1].Pos()
+				if !pos.IsValid() {
+					pos = firstPos([]*ssa.BasicBlock{b})
+				}
+				c.Check(ok, "LINE-COMPLETE", key, pos, why)
+			}
+		}
+		if n < 3 {
+			c.Undecided("LINE-COMPLETE", shortFuncName(fn)+":exits", read.Pos(), fmt.Sprintf("%d loop exits recognised, 5 confirmed by hand", n))
+		}
+	}
+}
